@@ -7,7 +7,11 @@ Leg M: Session.tla: every operation is a function of its arguments; TLC checks t
        build + reuse operations under two contexts of one caller that bind the names the formulas call
        (center, scale, tf, ns.tf) to different kinds of callable; Indep (every call returns what it
        returns as the only call of a process) holds of the specification and TLC must refute it for
-       the Variant "memo_by_name" (what a name denotes remembered per name, process-wide).
+       the Variant "memo_by_name" (what a name denotes remembered per name, process-wide).  The data is an
+       argument as well: the family "kinds" has builds with formula text, ONE shared Formula object and ONE
+       shared un-materialised spec on two frames that hold columns of different kinds under the same names
+       (the kind of a factor is decided by the frame of the call); TLC must refute Indep and Frame for the
+       Variant "kind_on_formula" (the inferred kind written back onto the factor of the shared formula).
 Leg R/T: every history is executed in fresh interpreters under three PYTHONHASHSEED values; after
        every step the harness fingerprints the result (bytes, column order, dropped rows) and
        every live object (frames, formula, un-materialised spec, the spec obtained earlier); TLC
@@ -50,14 +54,15 @@ def run_workers(hists, seed, tag):
 def run(ctx: Ctx) -> None:
     ctx.rule = ("every history of <= MaxOps operations over 12 operation instances (sugar build on two frames, Formula object, ONE shared un-materialised "
                 "ModelSpec on two frames, reuse / subset / pickle / update of an obtained spec, ONE shared materializer instance used with a formula for two outputs and with an obtained spec) and every history of <= 3 operations over 6 "
-                "operation instances under two contexts binding the called names to different kinds of callable (build, build + reuse), each executed under 3 hash seeds; non-trivial = "
-                ">= 2 operations, at least one repeated or sharing an object or two contexts")
+                "operation instances under two contexts binding the called names to different kinds of callable (build, build + reuse) and every history of <= 3 operations over 6 operation "
+                "instances on two frames holding columns of different kinds under the same names (formula text, ONE shared Formula object, ONE shared un-materialised ModelSpec), each executed under 3 hash seeds; "
+                "the frames hold columns whose fitted state (spline bounds, mean) is exactly 0; non-trivial = >= 2 operations, at least one repeated or sharing an object or two contexts")
     ctx.trusted = ["structural fingerprints of frames / formulas / specs / matrices (bytes of the numeric payload)", "TLC"]
     out = workdir("c18") / "hist.ndjson"
     out.unlink(missing_ok=True)
     maxops = 3 if ctx.quick else 4
-    cfg = lambda n, fam="objects", variant="pure", emit="TRUE": (f'SPECIFICATION Spec\nCONSTANTS\n  MaxOps = {n}\n  Emit = {emit}\n  Family = "{fam}"\n  Variant = "{variant}"\n'
-                                                                  "PROPERTY Det\nPROPERTY Indep\nPROPERTY Frame\nINVARIANT EmitCase\n")
+    cfg = lambda n, fam="objects", variant="pure", emit="TRUE", props=("Det", "Indep", "Frame"): (
+        f'SPECIFICATION Spec\nCONSTANTS\n  MaxOps = {n}\n  Emit = {emit}\n  Family = "{fam}"\n  Variant = "{variant}"\n' + "".join(f"PROPERTY {p}\n" for p in props) + "INVARIANT EmitCase\n")
     r = run_tlc("MC_Session", cfg(maxops), tag="c18", env={"OUT_FILE": str(out)}, timeout=1800)
     if r.violated:
         ctx.model_violation(r, "MC_Session")
@@ -84,6 +89,24 @@ def run(ctx: Ctx) -> None:
     if not any(v.endswith("Indep") for v in bad.violated):
         raise MachineryError("MC_Session variant memo_by_name does not violate Indep on the family contexts: the family is vacuous")
     ctx.notes["session_model_variant_memo_by_name"] = "violates " + ",".join(bad.violated)
+    # family "kinds": the data is an argument too - the kind of a factor (categorical / numerical) is decided by the column of the frame of THAT call; histories of builds
+    # with formula text, ONE shared Formula object and ONE shared un-materialised spec on two frames whose columns A and V have opposite kinds (Session.tla: ColKind)
+    rk = run_tlc("MC_Session", cfg(3, "kinds"), tag="c18", env={"OUT_FILE": str(out)}, timeout=1800)
+    if rk.violated:
+        ctx.model_violation(rk, "MC_Session (kinds)")
+    ctx.add_tlc(rk, "family kinds: Det, Indep and Frame on all histories of <= 3 operations over 6 operation instances on two frames with columns of different kinds + emission")
+    khists = sorted(x["hist"] for x in read_emitted(out))
+    out.unlink()
+    if len(khists) != rk.distinct - 1:
+        raise MachineryError(f"emission incomplete (kinds): {len(khists)} of {rk.distinct - 1}")
+    hists += [{"id": len(hists) + i + 1, "hist": hh} for i, hh in enumerate(khists)]          # the operations of this family belong to no other family
+    # not vacuous: TLC refutes both laws for the design error of writing the kind inferred from the data onto the factor of the shared formula object (one law per run:
+    # TLC stops at the first violated property, and Frame falls one step before Indep)
+    for law in ("Indep", "Frame"):
+        badk = run_tlc("MC_Session", cfg(3, "kinds", "kind_on_formula", "FALSE", (law,)), tag="c18", timeout=1800)
+        if not any(v.endswith(law) for v in badk.violated):
+            raise MachineryError(f"MC_Session variant kind_on_formula does not violate {law} on the family kinds: the family is vacuous")
+    ctx.notes["session_model_variant_kind_on_formula"] = "violates Indep,Frame"
     # longer histories: random behaviours of Session (tlc -simulate), executed and validated like the enumerated ones
     from ..tlc import simulate_emitted
 
@@ -138,6 +161,7 @@ def run(ctx: Ctx) -> None:
             v = rejected.get(x["id"])
             hist = byid[x["id"]]["hist"]
             if len(hist) >= 2 and (len(set(hist)) < len(hist) or sum(o.startswith("U") for o in hist) >= 2 or any(o in ("R", "S", "P", "UPD", "MR", "GR", "HR") for o in hist)
+                                   or sum(o.startswith("KF") for o in hist) >= 2 or sum(o.startswith("KU") for o in hist) >= 2        # one formula object / un-materialised spec, two frames
                                    or (any(o in ("H1", "HR") for o in hist) and any(o in ("B1", "R", "G1", "GR") for o in hist))):     # two contexts in one history
                 ctx.nontrivial.add(jhash(hist))
             if v:
